@@ -18,6 +18,7 @@ import (
 	spb "github.com/openconfig/gribi/v1/proto/service"
 
 	"verifharness/canon"
+	"verifharness/drv"
 	"verifharness/ev"
 	"verifharness/gen"
 	"verifharness/model"
@@ -105,7 +106,7 @@ const (
 
 var cfgNames = []string{"ni-before-hook", "ni-after-hook(AddNetworkInstance)", "server.WithVRFs", "server.AddNetworkInstance"}
 
-func build(cfg int, s gen.Space, f *fold, rs *resolved) (*rib.RIB, error) {
+func build(cfg int, s gen.Space, f *fold, rs *resolved) (*rib.RIB, *server.Server, error) {
 	rhook := func(ribs map[string]*aft.RIB, op constants.OpType, ni string, a constants.AFT, key any, d ...rib.ResolvedDetails) {
 		rs.hook(ribs, op, ni, a, key, d...)
 	}
@@ -120,39 +121,39 @@ func build(cfg int, s gen.Space, f *fold, rs *resolved) (*rib.RIB, error) {
 		r := rib.New(s.Default)
 		for _, v := range vrfs {
 			if err := r.AddNetworkInstance(v); err != nil {
-				return nil, err
+				return nil, nil, err
 			}
 		}
 		r.SetPostChangeHook(f.hook)
 		r.SetResolvedEntryHook(rhook)
-		return r, nil
+		return r, nil, nil
 	case cfgAfterAdd:
 		r := rib.New(s.Default)
 		r.SetPostChangeHook(f.hook)
 		r.SetResolvedEntryHook(rhook)
 		for _, v := range vrfs {
 			if err := r.AddNetworkInstance(v); err != nil {
-				return nil, err
+				return nil, nil, err
 			}
 		}
-		return r, nil
+		return r, nil, nil
 	case cfgServerVRFs:
 		srv, err := server.New(server.WithPostChangeRIBHook(f.hook), server.WithRIBResolvedEntryHook(rhook), server.WithVRFs(vrfs))
 		if err != nil {
-			return nil, err
+			return nil, nil, err
 		}
-		return srv.VerifRIB(), nil
+		return srv.VerifRIB(), srv, nil
 	default:
 		srv, err := server.New(server.WithPostChangeRIBHook(f.hook), server.WithRIBResolvedEntryHook(rhook))
 		if err != nil {
-			return nil, err
+			return nil, nil, err
 		}
 		for _, v := range vrfs {
 			if err := srv.AddNetworkInstance(v); err != nil {
-				return nil, err
+				return nil, nil, err
 			}
 		}
-		return srv.VerifRIB(), nil
+		return srv.VerifRIB(), srv, nil
 	}
 }
 
@@ -170,12 +171,23 @@ func TestCheck(t *testing.T) {
 		cfg := i % numCfg
 		f := &fold{c: canon.Contents{}}
 		rs := &resolved{}
-		impl, err := build(cfg, g.S, f, rs)
+		impl, srv, err := build(cfg, g.S, f, rs)
 		if err != nil {
 			run.Fatal(err.Error())
 			return
 		}
 		x := &mon.RIBMon{R: impl, M: model.NewRIB(g.S.Default, g.S.NIs, false), CheckHeld: true, CheckRefs: true}
+		// with a server, every other case makes its changes through the RPCs (Modify session of the
+		// elected primary, Flush RPC) instead of calling package rib
+		viaRPC := srv != nil && (i/numCfg)%2 == 1
+		if viaRPC {
+			if err := x.ProgramVia(srv, nil); err != nil {
+				run.Fatal(err.Error())
+				return
+			}
+			defer x.Close()
+			run.Count("histories_through_modify_and_flush_rpcs", 1)
+		}
 		n := 8 + r.Intn(40)
 		var probs []string
 		expectResolved := 0
@@ -186,7 +198,24 @@ func TestCheck(t *testing.T) {
 				if r.Intn(2) == 0 {
 					nis = g.S.NIs
 				}
-				x.Flush(nis)
+				if viaRPC {
+					req := &spb.FlushRequest{Election: &spb.FlushRequest_Override{Override: &spb.Empty{}}, NetworkInstance: &spb.FlushRequest_All{All: &spb.Empty{}}}
+					if len(nis) == 1 {
+						req.NetworkInstance = &spb.FlushRequest_Name{Name: nis[0]}
+					}
+					resp, ferr, wd := drv.Flush(srv, req)
+					x.Trace = append(x.Trace, fmt.Sprintf("FLUSH RPC %v => %v %v", nis, resp.GetResult(), ferr))
+					x.M.Flush(nis)
+					if wd != nil {
+						run.Inconclusive(caseID + ": Flush RPC hit the watchdog")
+						return
+					}
+					if ferr != nil {
+						probs = append(probs, fmt.Sprintf("flush-error|Flush RPC (%v) failed: %v", nis, ferr))
+					}
+				} else {
+					x.Flush(nis)
+				}
 				run.Count("flushes", 1)
 			} else {
 				spec := g.Op()
